@@ -81,6 +81,8 @@ def generate(rng, tier) -> dict:
         ops.append({"gulp": max(1, rng.choice([1, 2, 3, rng.randint(1, max(1, ns)), ns, ns + rng.randint(1, 4), max(1, ns // 2), max(1, ns // 3)]))})
     if rng.random() < 0.1:
         ops[rng.randrange(2)]["gulp"] = None  # the gulp argument left at its default
+    if rng.random() < 0.1:
+        ops[0]["reentrant"] = True  # the allocator callback of this call runs the same reduction on another reader
     if rng.random() < 0.35 and N >= 2:
         # the second call asks for ANOTHER window on the same reader (same length shifted, or any other)
         if rng.random() < 0.6 and ns < N:
@@ -170,10 +172,12 @@ def two_pass(X):
     return {"count": n, "mean": mean, "var": var, "skew": skew, "kurt": kurt, "min": x.min(axis=0), "max": x.max(axis=0)}
 
 
-def call(name, reader, params, gulp, start, nsamps):
+def call(name, reader, params, gulp, start, nsamps, allocator=None):
     kw = {"gulp": gulp, "start": start, "nsamps": nsamps, "quiet": True}
     if gulp is None:
         del kw["gulp"]
+    if allocator is not None:
+        kw["allocator"] = allocator
     if name == "collapse":
         return np.asarray(reader.collapse(**kw).data)
     if name == "bandpass":
@@ -288,8 +292,23 @@ def execute(sc, ctx) -> None:
                     "nchans": nchans, "eof": eof, "nblocks": nblk, "maxdelay": md, "op_index": i, "pre": sc.get("pre", [])}
             raised = None
             got = None
+            alloc = None
+            inner = {}
+            if op.get("reentrant") and not sc["faults"]:
+                def alloc(n, _inner=inner):
+                    # a callback the caller owns, running in the middle of the call: the same reduction on
+                    # the same window through ANOTHER reader, to completion; then the buffer is handed out
+                    if "got" not in _inner:
+                        _inner["got"] = None
+                        rb = open_reader("C06", fs.paths)
+                        _inner["got"] = call(name, rb, params, max(1, ns // 2), start, nsamps)
+                        rb._file.close()
+                    return bytearray(n)
+
+                ctx.probe("reentrant-call-inside-allocator")
+                sim.begin_op(i, budget=64 * (nblk + 4) * (len(spec["nsamps"]) + 2) + 256)
             try:
-                got = call(name, reader, params, gulp, start, nsamps)
+                got = call(name, reader, params, gulp, start, nsamps, allocator=alloc)
             except SimLivelock as e:
                 raise Violation(f"C06/{name}/livelock/{eof}", str(e), info) from None
             except Violation:
@@ -311,6 +330,12 @@ def execute(sc, ctx) -> None:
                 if not fault:
                     raise mk("raised", repr(raised)[:300])
                 continue
+            if inner.get("got") is not None:
+                gi = inner["got"]
+                if isinstance(want, dict):
+                    compare_stats(gi, want, name, lambda c, d: mk("inner-call-" + c, d))
+                elif gi.shape != want.shape or np.any(np.abs(gi.astype(np.float64) - want.astype(np.float64)) > 1e-6 * np.maximum(1.0, np.abs(want))):
+                    raise mk("inner-call-wrong-values", "the call made from inside the allocator callback returned a wrong result")
             if isinstance(want, dict):
                 compare_stats(got, want, name, mk)
                 ctx.log("call", i, name, gulp, start, ns, [round(float(v), 3) for v in got["mean"]])
